@@ -94,7 +94,17 @@ SweepCountWhys(e) ==
          IF ~Lt(MM, Add(e.accepted, e.accepted)) THEN "prop:not-more-than-half-accepted" ELSE "ok",
          IF e.accepted # Thr(e) THEN "shape:accepted-count-differs-from-threshold" ELSE "ok">>
 
+\* ---- two raw words presented at the same position of a draw (first, or after the same k rejected words) ----
+\* Above half the range (2n > 2^32) an unbiased sampler can give every alternative at most ONE raw value - two each would
+\* need 2n > 2^32 values (Draw!AboveHalfOnePreimage) - so two different words accepted there with the same result refute it.
+PairWhy(e) ==
+  IF e.kind1 = "ok" /\ e.kind2 = "ok" /\ e.used1 = e.k + 1 /\ e.used2 = e.k + 1 /\ e.w1 # e.w2 /\ e.res1 = e.res2
+     /\ Lt(MM, Add(e.n, e.n))
+    THEN "prop:two-raw-values-select-the-same-alternative-at-a-bound-above-half-the-range"
+  ELSE "ok"
+
 Whys(e) ==
+  IF e.op = "pair" THEN <<PairWhy(e)>> ELSE
   IF e.op = "sweepcount" THEN SweepCountWhys(e) ELSE
   IF e.op = "opaque" THEN OpaqueWhys(e) ELSE
   IF e.op = "draw" THEN <<DrawPropWhy(e), DrawContWhy(e), DrawShapeWhy(e)>>
